@@ -2,6 +2,9 @@
 import json
 import os
 import re
+import sys
+
+sys.path.insert(0, os.path.dirname(os.path.abspath(__file__)))
 
 FILES = ["harness/fzf/c04.go"]
 SCALED_CHUNK = 2
@@ -69,7 +72,9 @@ def run(c, replay):
                       "worker scheduling inside scan is whatever the Go runtime does here (Engine B enumerates it)"]
     if replay:
         layer = json.load(open(replay)).get("layer", "short")
-        if layer == "long":
+        if layer == "scan-schedules":
+            layer_scan_schedules(c, replay)
+        elif layer == "long":
             layer_long(c, b, replay)
         elif layer == "short-scaled" and bs:
             layer_scaled(c, bs, replay)
@@ -77,6 +82,19 @@ def run(c, replay):
             layer_short(c, b, replay)
         return
     run_sequential(c, b, bs)
+    layer_scan_schedules(c)
+    import cli_layers
+    cli_layers.layer_c04_cli(c)
+
+
+def layer_scan_schedules(c, replay=None):
+    """Matcher.scan with 2-3 partitions under every schedule (Engine B)"""
+    import schedlib
+    b, info = schedlib.build(c, ["harness/fzf/sched_common.go", "harness/fzf/c04b.go"], chunk_size=4, out="hs.test")
+    c.bounds["scan_schedules"] = dict(deviation_bound=c.pick(2, 3), partitions=[2, 3], chunks=[2, 3], **info)
+    c.run_layer(b, "TestVerif_C04_scan_schedules", "scan-schedules", deadline_s=c.pick(120, 900), replay=replay, mem_mb=8000,
+                rule="real Matcher.scan with 2-3 worker partitions x 2-3 chunks x tac x 3 queries under every schedule with at most B deviations: merged order and per-item rank "
+                     "keys identical to the single-partition result (distinct outcomes per scenario must be 1)")
 
 
 def run_sequential(c, b, bs):
